@@ -199,4 +199,28 @@ __CPROVER_ensures(vf_gv < o->size ==> (v->data[vf_gv].size == o->data[vf_gv].siz
                                        v->data[vf_gv].data[v->data[vf_gv].size] == 0 &&
                                        (vf_gc < o->data[vf_gv].size ==> v->data[vf_gv].data[vf_gc] == o->data[vf_gv].data[vf_gc])));
 
+
+/* ostream::write without fault injection: n bytes land at the current position; every byte of the output is
+ * described at the ghost offset vf_gb (either one of the n source bytes or unchanged) */
+#define VF_OSTREAM_WOK(f) (__CPROVER_rw_ok(f, sizeof(*(f))) && (f)->is_open && (f)->writable && !(f)->fail && !(f)->eof && \
+                           (f)->pos >= 0 && (f)->cap <= VF_MAXFILE && __CPROVER_rw_ok((f)->buf, (f)->cap ? (f)->cap : 1))
+void contract_vf_stream_write(vf_stream *f, const char *src, long n)
+__CPROVER_requires(VF_OSTREAM_WOK(f) && !vf_fault_enabled && n >= 0 && n <= (long)VF_MAXSTR && (size_t)f->pos + (size_t)n <= f->cap &&
+                   (n == 0 || __CPROVER_r_ok(src, (size_t)n)))
+__CPROVER_assigns(f->pos, f->len, __CPROVER_object_whole(f->buf))
+__CPROVER_ensures(f->pos == __CPROVER_old(f->pos) + n &&
+                  f->len == (__CPROVER_old(f->len) > (size_t)f->pos ? __CPROVER_old(f->len) : (size_t)f->pos))
+__CPROVER_ensures((vf_gb >= (size_t)__CPROVER_old(f->pos) && vf_gb < (size_t)__CPROVER_old(f->pos) + (size_t)n) ==>
+                  f->buf[vf_gb] == (unsigned char)src[vf_gb - (size_t)__CPROVER_old(f->pos)])
+__CPROVER_ensures((vf_gb < f->cap && !(vf_gb >= (size_t)__CPROVER_old(f->pos) && vf_gb < (size_t)__CPROVER_old(f->pos) + (size_t)n)) ==>
+                  f->buf[vf_gb] == __CPROVER_old(f->buf[vf_gb < f->cap ? vf_gb : 0]));
+
+/* ezc3d::toUpper proved in unit toUpper: same length, every character upper-cased ("C" locale) */
+#define VF_UPPER(c) (((c) >= 'a' && (c) <= 'z') ? (char)((c) - 'a' + 'A') : (c))
+void contract_ezc3d__toUpper(vf_string *vf_ret, const vf_string *str)
+__CPROVER_requires(vf_exc == 0 && __CPROVER_rw_ok(vf_ret, sizeof(*vf_ret)) && __CPROVER_r_ok(str, sizeof(*str)) && VF_STR_OK(*str))
+__CPROVER_assigns(vf_ret->data, vf_ret->size)
+__CPROVER_ensures(vf_exc == 0 && vf_ret->size == str->size && __CPROVER_is_fresh(vf_ret->data, vf_ret->size + 1) && vf_ret->data[vf_ret->size] == 0)
+__CPROVER_ensures(vf_gc < str->size ==> vf_ret->data[vf_gc] == VF_UPPER(str->data[vf_gc]));
+
 #endif
